@@ -228,6 +228,21 @@ def oracle_c03(rr: Any, spec: Dict[str, Any]) -> "tuple[List[Violation], Dict[st
         v.append(Violation("listen-raised", f"listen() raised {rr.err}"))
     if rr.outcome == "horizon":
         v.append(Violation("stall", "worker stopped making progress: stream ended but listen() did not return before the horizon"))
+    if probe and spec.get("_probe_dep") and rr.outcome in ("returned", "api-horizon"):
+        # ... and with a slow dependency in front of the probe tasks, that many messages resolve dependencies at once
+        info_tok = {i["d"]: i["tok"] for i in rr.sc.deliveries}
+        resolving: set = set()
+        mx = 0
+        for e in tr:
+            if info_tok.get(e["m"]) in probe:
+                if e["k"] == "dep_enter":
+                    resolving.add(e["m"])
+                    mx = max(mx, len(resolving))
+                elif e["k"] in ("dep_open", "dep_raise"):
+                    resolving.discard(e["m"])
+        want_r = min(A, len(probe)) if A else len(probe)
+        if mx < want_r:
+            v.append(Violation("dependency-phase-serialised", f"saturation probe: only {mx} messages resolved their dependencies at the same time, expected {want_r}"))
     if probe and rr.outcome in ("returned", "api-horizon"):
         want = min(A, len(probe)) if A else len(probe)
         if stats["probe_max"] < want:
